@@ -24,5 +24,7 @@ class TrashDirReader:
     def list_trashinfo(self, path):
         info_dir = os.path.join(path, 'info')
         for entry in self.dir_reader.entries_if_dir_exists(info_dir):
-            if entry.endswith('.trashinfo'):
+            # a file named exactly '.trashinfo' has an empty name: its backup
+            # copy would be the whole 'files' directory
+            if entry.endswith('.trashinfo') and entry != '.trashinfo':
                 yield os.path.join(info_dir, entry)
